@@ -314,7 +314,7 @@ impl Envelope {
                     Self::new_with_encrypted(message).unwrap()
                 },
                 #[cfg(feature = "compress")]
-                ObscureAction::Compress => self.compress().unwrap(),
+                ObscureAction::Compress => self.compress().unwrap_or_else(|_| self.clone()),
             }
         } else if let EnvelopeCase::Assertion(assertion) = self.case() {
             let predicate = assertion.predicate().elide_set_with_action(target, is_revealing, action);
